@@ -68,6 +68,9 @@ type upstream struct {
 	fault bool
 	adv   *advBackend
 	mu    sync.Mutex
+
+	// large-body / slow-upload upstreams only: a streaming upstream (digests instead of stored bodies)
+	big *bigBackend
 }
 
 type config struct {
@@ -76,6 +79,7 @@ type config struct {
 	faultUps []*upstream // rsa+hmac, rsa-only, hmac-only, each in front of a fault-injecting upstream
 	tls      []*tlsBackend
 	tlsUps   [nKinds][]*upstream // the same signing set-ups in front of TLS upstreams (simple and rewrite routes)
+	bigUps   []*upstream         // rsa+hmac, rsa-only, hmac-only, each in front of a streaming (digesting) upstream
 }
 
 func (c *config) close() {
@@ -85,6 +89,11 @@ func (c *config) close() {
 	for _, u := range c.faultUps {
 		if u.adv != nil {
 			u.adv.close()
+		}
+	}
+	for _, u := range c.bigUps {
+		if u.big != nil {
+			u.big.close()
 		}
 	}
 	for _, s := range c.stacks {
@@ -162,6 +171,25 @@ func newConfig(rep *vh.Report, seed int64, ci int) (*config, error) {
 		return u
 	}
 	fa, fb, fe := mkFault(kBoth, true), mkFault(kRSAOnly, false), mkFault(kHMACOnly, true)
+	// the same three set-ups in front of streaming upstreams (c12-big, c12-trickle). The upstream timeout is
+	// raised so that the time a large transfer takes on a loaded machine never decides anything.
+	mkBig := func(kind int, hmac bool) *upstream {
+		u := mk(kind)
+		u.label = " (streaming upstream)"
+		u.host = "big-" + u.host
+		u.spec.From = u.host
+		u.spec.Service += "b"
+		u.spec.Timeout = 10 * time.Minute
+		if hmac {
+			u.secret = word(r, 12+r.Intn(20))
+			u.spec.HMACKey = "sha256:" + u.secret
+		}
+		u.big = newBigBackend(u.spec.Service, u.secret)
+		u.spec.To = u.big.addr()
+		cfg.bigUps = append(cfg.bigUps, u)
+		return u
+	}
+	ba, bb, be := mkBig(kBoth, true), mkBig(kRSAOnly, false), mkBig(kHMACOnly, true)
 
 	// TLS upstreams: one that offers h2, one that speaks HTTP/1.1 only; reached through simple routes with an
 	// explicit https `to` and through a rewrite route whose template takes the port from the host name
@@ -244,13 +272,13 @@ func newConfig(rep *vh.Report, seed int64, ci int) (*config, error) {
 		}
 		return st, nil
 	}
-	s1, err := build(true, a, b, c, d, fa, fb, ta, tb, rw1, rw2)
+	s1, err := build(true, a, b, c, d, fa, fb, ta, tb, rw1, rw2, ba, bb)
 	if err != nil {
 		cfg.close()
 		return nil, err
 	}
 	cfg.stacks = append(cfg.stacks, s1)
-	s2, err := build(false, e, f, fe, te)
+	s2, err := build(false, e, f, fe, te, be)
 	if err != nil {
 		cfg.close()
 		return nil, err
@@ -1273,23 +1301,25 @@ func (m *monitor) runCase(cfg *config, ci, i int) {
 func TestProp(t *testing.T) {
 	env := vh.GetEnv()
 	rep := vh.NewReport("C12", "exploration")
-	rep.Rule("cases stride over method(7) x auth(session cookie | skip_auth_regex) x upstream kind(rsa+hmac, rsa-only/preserve_host, rsa+hmac+groups+inject_request_headers, skip_request_signing, hmac-only, none) x body class(11: none/empty/1B/binary/form/64KiB/1MiB/chunked empty,small,64KiB/text) x transport(Go client | hand-written raw request) x Connection class(none/benign/hostile); per case random: state of each covered header (absent/single/two lines/empty/odd spacing/folded/mixed-case name/commas), cookies (session cookie first/middle/last/repeated/two Cookie lines, odd cookies), 18 path classes, 15 query classes, non-canonical Content-Length, client-supplied Sso-Signature/kid/Gap-Signature. distinct = (upstream kind, method, auth, body, transport, path, query, cookie, connection, content-length class) of requests that were forwarded AND whose signature was verified by the monitor. Every 10th case is an UPSTREAM CONNECTION FAULT case: method(GET/PUT/DELETE/POST/PATCH) x (no | Idempotency-Key | X-Idempotency-Key) x body(none/sized small,8KiB/chunked small,8KiB,empty) x fault(close after reading the request | close before reading the body | answer with Connection: close then RST | one byte then close | none) x upstream(rsa+hmac, rsa-only, hmac-only) x auth, sent right after a warm-up request so that the proxy re-uses a keep-alive connection to a fault-injecting upstream; the same oracle is applied to every arrival (incl. re-sent requests) the upstream records. A quarter of the regular cases go to the same signing set-ups in front of TLS upstreams (one offering h2, one HTTP/1.1 only; simple routes with an https `to` and a rewrite route); the protocol each hit arrived over is counted")
+	rep.Rule("cases stride over method(7) x auth(session cookie | skip_auth_regex) x upstream kind(rsa+hmac, rsa-only/preserve_host, rsa+hmac+groups+inject_request_headers, skip_request_signing, hmac-only, none) x body class(11: none/empty/1B/binary/form/64KiB/1MiB/chunked empty,small,64KiB/text) x transport(Go client | hand-written raw request) x Connection class(none/benign/hostile); per case random: state of each covered header (absent/single/two lines/empty/odd spacing/folded/mixed-case name/commas), cookies (session cookie first/middle/last/repeated/two Cookie lines, odd cookies), 18 path classes, 15 query classes, non-canonical Content-Length, client-supplied Sso-Signature/kid/Gap-Signature. distinct = (upstream kind, method, auth, body, transport, path, query, cookie, connection, content-length class) of requests that were forwarded AND whose signature was verified by the monitor. Every 10th case is an UPSTREAM CONNECTION FAULT case: method(GET/PUT/DELETE/POST/PATCH) x (no | Idempotency-Key | X-Idempotency-Key) x body(none/sized small,8KiB/chunked small,8KiB,empty) x fault(close after reading the request | close before reading the body | answer with Connection: close then RST | one byte then close | none) x upstream(rsa+hmac, rsa-only, hmac-only) x auth, sent right after a warm-up request so that the proxy re-uses a keep-alive connection to a fault-injecting upstream; the same oracle is applied to every arrival (incl. re-sent requests) the upstream records. A quarter of the regular cases go to the same signing set-ups in front of TLS upstreams (one offering h2, one HTTP/1.1 only; simple routes with an https `to` and a rewrite route); the protocol each hit arrived over is counted. Body SIZE and upload SHAPE are two further streams against streaming upstreams (body digested, not stored; content = counter-keyed pseudo-random stream): c12-big = size(64KiB-1, 64KiB, 64KiB+1, 1MiB-1, 1MiB, 1MiB+1, 4MiB+1, 8MiB+1, 10MiB, 10MiB+1, 16MiB+3, 32MiB+1; thorough also 64MiB+1, 100MiB+1) x framing(sized | chunked) x upstream(rsa+hmac for every size above 1 MiB; rsa-only, hmac-only rotating with the seed; thorough: all three) x client(Go | hand-written with chunk/write pattern 1000B, 64KiB, 1MiB, random, single chunk) x Expect: 100-continue on every 5th; c12-trickle = shape(1-byte chunks, with stalls, tiny random chunks with stalls, chunk extensions, 64KiB+1 in flushed 1000B chunks with stalls, sized body dribbled in tiny writes, with stalls, stall after the header block, Expect: 100-continue sized/chunked from a hand-written and from Go's client) x upstream(3) x auth(2). Oracle for both: what reached the upstream has the client's length and SHA-256; Sso-Signature verifies under the published key over SHA-256(documented canonical form of the received request, body streamed); Gap-Signature equals HMAC-SHA256(shared key; hmacauth string-to-sign of the received request, body streamed); a refusal that never reaches the upstream is counted, not judged")
 	rep.Assume("the canonical form is the one documented in the request signer's doc comment (covered headers in the documented order, ','-joined non-empty values, headers without values skipped; PATH(?QUERY); body), with PATH = the decoded path of the request URL as the receiving server parses it")
 	rep.Assume("RSA PKCS#1 v1.5 and HMAC signatures are deterministic, so a twin request without the hostile Connection header shows what the proxy signed")
 	rep.Assume("only bare-host `to` targets are configured (as the property says)")
+	rep.Assume("large / slow uploads: SHA-256 over (length, content) identifies a body (the content stream is position-dependent, so truncation, duplication and re-ordering change the digest); a 4xx/5xx from the proxy for a request that never reached the upstream is a refusal, which this property does not judge; the upstream timeout of these upstreams is 10 min so that transfer time decides nothing")
 	rep.Assume("fault cases: the upstream applies a fault at most once per request id and only on a connection that already served a request; how often net/http re-sends is counted, not judged; the client must get the upstream's answer or an error, never a 2xx the upstream did not give")
 
 	nConfigs := env.Pick(2, 10)
 	perConfig := env.Pick(1000, 5000)
-	only, skipAll := env.Only("c12")
-	if skipAll {
-		rep.Finish()
-		return
-	}
+	nTrickle := env.Pick(96, 720)
+	only, skipMain := env.Only("c12")
+	onlyBig, skipBig := env.Only("c12-big")
+	onlyTrickle, skipTrickle := env.Only("c12-trickle")
+	replaying := env.Replay != ""
 	m := &monitor{rep: rep, env: env}
 	start := time.Now()
+	wallTrickle, wallBig := 0.0, 0.0
 	for ci := 0; ci < nConfigs; ci++ {
-		if only >= 0 && only/perConfig != ci {
+		if replaying && !((only >= 0 && only/perConfig == ci) || (onlyBig >= 0 && onlyBig%nConfigs == ci) || (onlyTrickle >= 0 && onlyTrickle%nConfigs == ci)) {
 			continue
 		}
 		cfg, err := newConfig(rep, env.Seed, ci)
@@ -1302,7 +1332,19 @@ func TestProp(t *testing.T) {
 		if only >= 0 {
 			o = only - lo
 		}
-		vh.ForEach(perConfig, 0, o, func(j int) { m.runCase(cfg, ci, lo+j) })
+		if !skipMain {
+			vh.ForEach(perConfig, 0, o, func(j int) { m.runCase(cfg, ci, lo+j) })
+		}
+		t1 := time.Now()
+		if !skipTrickle {
+			m.runTrickle(cfg, ci, nConfigs, nTrickle, onlyTrickle)
+		}
+		t2 := time.Now()
+		if !skipBig {
+			m.runBig(cfg, ci, nConfigs, onlyBig)
+		}
+		wallTrickle += t2.Sub(t1).Seconds()
+		wallBig += time.Since(t2).Seconds()
 		for _, st := range cfg.stacks {
 			if n := st.ps.ErrLog.Panics(); n > 0 {
 				rep.Count("handler_panics", n)
@@ -1314,6 +1356,8 @@ func TestProp(t *testing.T) {
 		cfg.close()
 	}
 	rep.Extra("wall_workload_s", time.Since(start).Seconds())
+	rep.Extra("wall_slow_upload_stream_s", wallTrickle)
+	rep.Extra("wall_large_body_stream_s", wallBig)
 
 	floors := map[string]int{
 		"forwarded": 500, "hmac_verified": 100, "body_intact_nonempty": 100,
@@ -1347,8 +1391,22 @@ func TestProp(t *testing.T) {
 			floors[name] = 0
 		}
 	}
+	// body size and upload shape (c12-big, c12-trickle). "decided" = reached the upstream and was checked, or was
+	// refused by the proxy without reaching it (a proxy that refuses large uploads is not short of coverage).
+	for name, min := range map[string]int{
+		"large_body_cases": 20, "large_body_decided": 20, "large_body_forwarded": 10, "large_body_intact_and_verified": 10,
+		"large_body_decided_over_10MiB_sized": 3, "large_body_decided_over_10MiB_chunked": 3,
+		"large_body_decided_sized": 8, "large_body_decided_chunked": 8,
+		"slow_upload_cases": 60, "slow_upload_decided": 60, "slow_upload_forwarded": 40, "slow_upload_intact_and_verified": 40,
+		"slow_upload_decided_with_expect_100_continue": 10,
+	} {
+		floors[name] = min
+	}
+	for _, shape := range trickleShapes {
+		floors["slow_upload_decided_"+shape] = 2
+	}
 	for name, min := range floors {
-		if only >= 0 {
+		if replaying {
 			min = 0
 		}
 		rep.Floor(name, min)
